@@ -175,7 +175,12 @@ func (c *Ctx) fullRangeOff(fn *ssa.Function, h *ssa.BasicBlock, what string, isS
 			if isBuiltin("len")(x) {
 				arg := x.Call.Args[0]
 				if sl, ok := arg.(*ssa.Slice); ok && (sl.Low != nil || sl.High != nil) {
-					return linL{} // a sub-slice: not the whole validated slice
+					// s[k:] has len(s)-k elements; any other sub-slice is not
+					// the whole validated slice
+					if k, isC := ir.ConstInt(sl.Low); sl.Low != nil && isC && sl.High == nil && sl.Max == nil && isSlice(sl.X) {
+						return linL{1, -k, true}
+					}
+					return linL{}
 				}
 				if isSlice(arg) {
 					return linL{1, 0, true}
